@@ -49,7 +49,17 @@ impl Compile for Callable<'_> {
 
         for x in self.function_arguments.iter() {
             // an argument that cannot be compiled is a compilation error, not a crash
-            let mut value_init = x.compile(state)?;
+            let mut value_init = match x.compile(state) {
+                Ok(value_init) => value_init,
+                Err(e) => {
+                    // give back the registers of the arguments compiled so far, or the enclosing
+                    // expression's register is dropped out of order (a panic instead of this error)
+                    unsafe {
+                        state.free_many_temporary_registers(register_count);
+                    }
+                    return Err(e);
+                }
+            };
 
             let argument_register = unsafe { state.poll_temporary_register_ghost() };
 
